@@ -70,7 +70,12 @@ def analyse(prop, repo, tier='quick'):
             if not ok:
                 n_memo += 1
             ctx.ob('memo-key', fi0, node, ok, msg, construct='decorator of %s: %s' % (qual, U(node)[:60]))
-    if err is not None and not n_memo and not ctx.violations():
+    # an undecided remainder is reported as such unless a NEW definite finding stands on its own (known findings do not count: they are
+    # there on the unchanged tree as well and must not hide an analysis error)
+    from .report import load_known, match_known
+    known = load_known()
+    fresh = [o for o in ctx.violations() if match_known(prop, o, known, repo) is None]
+    if err is not None and not n_memo and not fresh:
         raise err
     if err is not None:
         ctx.note('analysis stopped early (%s); the finding(s) established before that are reported on their own' % err)
